@@ -139,3 +139,27 @@ PROPS["C18"] = {
         ],
     },
 }
+
+PROPS["C19"] = {
+    "pkg": "c19", "level": "exploration",
+    "technique": "property-based metamorphic testing (rapid): pairs of typed transcript sequences related by construction (shifted item/domain boundaries, split, merge, "
+                 "retype, permute, equal-concatenation identifier lists, sign/type changes of numbers, polynomial flags); oracle both ways: semantically different "
+                 "sequences must give different digests, identical ones the same; commitments open exactly to their own (data, decommitment)",
+    "level_text": "Adversarially related sequence pairs over 18 item types are hashed with the library; a digest collision between semantically different sequences, or different "
+                  "digests for the same sequence, is a violation. Commit/Decommit is checked against the model 'opens iff same data in order and own decommitment', including "
+                  "wrong-length, zero, flipped and swapped commitments/decommitments.",
+    "level_note": "Semantic identity of items is defined by the harness (type, value); BLAKE3 collisions are assumed not to occur. Random search, boundary-biased by construction.",
+    "rule": "case = (relation kind, set of item types involved); non-trivial iff the pair is adversarially related (not two independent sequences); the sub-class "
+            "'framing-only=true' marks pairs whose raw concatenated bytes are equal, so that only framing separates them; distinct = distinct class keys",
+    "assumptions": ["no BLAKE3 collisions"],
+    "tiers": {
+        "quick": [
+            {"run": "^TestTranscript$", "checks": 60000, "shards": 6},
+            {"run": "^TestCommit$", "checks": 30000, "shards": 4},
+        ],
+        "thorough": [
+            {"run": "^TestTranscript$", "checks": 2000000, "shards": 10},
+            {"run": "^TestCommit$", "checks": 600000, "shards": 6},
+        ],
+    },
+}
